@@ -39,6 +39,8 @@ type linObs struct {
 	log      []string // delivered changes
 	reg      map[string]string
 	finished bool
+	nfb      int // calls the fallback / the factory received
+	nfac     int
 }
 
 // blockedErr: a released thread neither parked nor finished within the time limit.
@@ -302,6 +304,7 @@ func runLinCase(c linCase) (linObs, error) {
 	logS := commaList(log)
 	mu.Unlock()
 	nfbS, nfacS := nfb, nfac
+	obs.nfb, obs.nfac = nfb, nfac
 	obs.finished = len(live()) == 0
 	// drain the threads still parked (after the observation)
 	for l := live(); len(l) > 0; l = live() {
@@ -459,6 +462,26 @@ func monitorLin(mon *lib.Monitor, c linCase, o linObs) {
 	}
 	if len(o.reg) != len(reg) {
 		mon.Violate("C12/pkg-router/concurrent/final-registry", "final registry differs from the sequential map", in, fmt.Sprint(reg), fmt.Sprint(o.reg))
+		return
+	}
+	// (1b) "created once by the factory": the fallback and the factory are called by Gets that missed the
+	// registry only, at most once each per Get (exactly as often as the map run in lock-section order says)
+	gets := 0
+	for _, p := range progs {
+		for _, o := range p {
+			if strings.HasPrefix(o, "g:") {
+				gets++
+			}
+		}
+	}
+	if o.nfac > gets || o.nfb > gets {
+		mon.Violate("C12/pkg-router/concurrent/factory-called-more-than-once-per-get", "the factory and the fallback are called at most once per Get", in,
+			fmt.Sprintf("at most %d calls each (%d Gets)", gets, gets), fmt.Sprintf("fallback %d, factory %d", o.nfb, o.nfac))
+		return
+	}
+	if o.nfac != nfac || o.nfb != nfb {
+		mon.Violate("C12/pkg-router/concurrent/factory-call-count", "only a Get that missed the registry calls the fallback, and the factory only when the fallback supplied nothing; once each", in,
+			fmt.Sprintf("fallback %d, factory %d", nfb, nfac), fmt.Sprintf("fallback %d, factory %d", o.nfb, o.nfac))
 		return
 	}
 	// (2) every transition reported exactly once
